@@ -11,7 +11,7 @@ PROP = "C17"
 PROOF_FILES = ["Properties/C17.v"]
 RULE = ("operation histories over 8 packet kinds (PUSI+payload, continuation, continuation with adaptation field, PUSI with "
         "adaptation field, no payload, PUSI without payload, adaptation field longer than the packet, adaptation field of 183 "
-        "bytes = empty payload) with Bytes() and Packets() observed after every call, Reset at random places, under threshold "
+        "bytes = empty payload, and packets of 188 uniformly random bytes) with Bytes() and Packets() observed after every call, Reset at random places, under threshold "
         "/ never / always / failing / failing-and-done / content-dependent predicates; all histories of length <= 3 (quick) or "
         "<= 5 (thorough) over 6 kinds are enumerated; non-trivial = the history contains a unit start followed by at least one "
         "more WritePacket")
@@ -130,6 +130,19 @@ def gen(rng, tier):
         out.append(mk(kp, k, ops, "random-pred%d" % kp))
         if rng.random() < 0.1:
             out.append(mk(kp, k, ops, "fidelity-write-count", decides=False))
+    # 2b. packets of 188 uniformly random bytes (any header, any adaptation_field_length): C05 on garbage
+    for _ in range(150 if tier == "quick" else 8000):
+        ops = []
+        for _ in range(rng.randrange(1, 8)):
+            p = bytearray(rng.randrange(256) for _ in range(PS))
+            if rng.random() < 0.5:
+                p[1] |= 0x40
+            if rng.random() < 0.3:
+                p[4] = rng.choice([0, 1, 182, 183, 184, 255])
+            ops += [bytes(p), 2, 3]
+            if rng.random() < 0.1:
+                ops.append(1)
+        out.append(mk(rng.choice([0, 1, 3, 6]), rng.choice([1, 100, 185, 400]), ops, "random-bytes"))
     # 3. behaviour after completion and after reset
     for _ in range(60 if tier == "quick" else 2000):
         pk = [packet(rng, "P")] + [packet(rng, rng.choice(["C", "A"])) for _ in range(rng.randrange(0, 4))]
